@@ -20,6 +20,7 @@ type requestStream struct {
 	reader          *bufio.Reader
 	totalBytesRead  int
 	chunkLeft       int
+	chunksDone      bool
 }
 
 func (rs *requestStream) Read(p []byte) (int, error) {
@@ -38,6 +39,7 @@ func (rs *requestStream) Read(p []byte) (int, error) {
 				if err != nil && err != io.EOF {
 					return 0, err
 				}
+				rs.chunksDone = true
 				return 0, io.EOF
 			}
 			rs.chunkLeft = chunkSize
@@ -86,6 +88,16 @@ func (rs *requestStream) Read(p []byte) (int, error) {
 	return n, err
 }
 
+// unread reports whether a part of the framed body may still be waiting on the
+// connection, i.e. it was neither prefetched nor read through the stream.
+func (rs *requestStream) unread() bool {
+	contentLength := rs.header.ContentLength()
+	if contentLength == -1 {
+		return !rs.chunksDone
+	}
+	return rs.totalBytesRead < contentLength && int(rs.prefetchedBytes.Size()) < contentLength
+}
+
 func acquireRequestStream(b *bytebufferpool.ByteBuffer, r *bufio.Reader, h bodyStreamHeader) *requestStream {
 	rs := requestStreamPool.Get().(*requestStream) //nolint:forcetypeassert
 	rs.prefetchedBytes = bytes.NewReader(b.B)
@@ -98,6 +110,7 @@ func releaseRequestStream(rs *requestStream) {
 	rs.prefetchedBytes = nil
 	rs.totalBytesRead = 0
 	rs.chunkLeft = 0
+	rs.chunksDone = false
 	rs.reader = nil
 	rs.header = nil
 	requestStreamPool.Put(rs)
